@@ -38,6 +38,7 @@ func runC08(c *Ctx) {
 		"C08.1 the two precedence functions, evaluated over their whole finite input domain, give the documented total order deny > write > list > read and the documented grant table",
 		"C08.2 merging a token's policies never mutates a rule object that is shared with the parsed-policy cache (no in-place store through a merge-map entry that aliases an input rule)",
 		"C08.3 every policyAuthorizer method asks for the access level its name says and siblings of one resource consult the same rule tree; chained and allow authorizers delegate to the like-named method with their own arguments",
+		"C08.5 the functions that combine the identities and templated policies of a token's roles (Deduplicate) never write through, or sort in place, an element of their input: the inputs are the role objects held in the cache / state store, shared by every token that uses the role",
 		"C08.4 the authorizer cache key folds ID and ModifyIndex of every policy of the receiver that is compiled; the parsed-policy cache key is the policy's content hash",
 	}
 	r.NotDecided = []string{"longest-prefix / exact selection in the radix walk (library semantics)", "equivalence with the documented semantics for all policy sets"}
@@ -587,6 +588,7 @@ func checkCacheKeys(c *Ctx) {
 		r.Violate("C08.4", "structs.ACLPolicies.Compile", p.FuncPos(cp), "the authorizer cache key is not the hash of the policy set that is compiled: a token can be served an authorizer built from other policies")
 	}
 	r.Floor("C08.4", 3)
+	checkCombinersDoNotWriteInputs(c)
 }
 
 func collectFieldLoads(v ssa.Value, out map[string]bool, depth int) {
@@ -613,4 +615,71 @@ func collectFieldLoads(v ssa.Value, out map[string]bool, depth int) {
 	case *ssa.FieldAddr:
 		out[core.FieldObj(x).Name()] = true
 	}
+}
+
+// C08.5
+func checkCombinersDoNotWriteInputs(c *Ctx) {
+	p, r := c.P, c.R
+	isCopy := func(v ssa.Value) bool {
+		call, ok := v.(*ssa.Call)
+		if !ok {
+			return false
+		}
+		n := core.MethodNameOf(&call.Call)
+		if g := call.Call.StaticCallee(); g != nil {
+			n = g.Name()
+		}
+		return strings.Contains(n, "Clone") || strings.Contains(n, "Copy") || n == "MergeSorted"
+	}
+	n := 0
+	for _, f := range p.SrcFuncs("agent/structs") {
+		if f.Name() != "Deduplicate" || f.Signature.Recv() == nil {
+			continue
+		}
+		n++
+		recv := f.Params[0]
+		name := core.FuncName(f)
+		fromInput := func(v ssa.Value) bool {
+			for _, leaf := range core.Leaves(v, core.SliceOpts{StopAt: isCopy}) {
+				if leaf == ssa.Value(recv) {
+					return true
+				}
+			}
+			return false
+		}
+		bad := ""
+		for _, b := range f.Blocks {
+			for _, in := range b.Instrs {
+				switch x := in.(type) {
+				case *ssa.Store:
+					if fa, ok := x.Addr.(*ssa.FieldAddr); ok {
+						if _, isAlloc := fa.X.(*ssa.Alloc); !isAlloc && fromInput(fa.X) {
+							bad = fmt.Sprintf("field %s of an input element is assigned at %s", core.FieldObj(fa).Name(), p.Pos(in.Pos()))
+						}
+					}
+					if ia, ok := x.Addr.(*ssa.IndexAddr); ok {
+						if _, isSlice := ia.X.Type().Underlying().(*types.Slice); isSlice && fromInput(ia.X) {
+							if _, isMk := ia.X.(*ssa.MakeSlice); !isMk {
+								bad = "an element of an input slice is overwritten at " + p.Pos(in.Pos())
+							}
+						}
+					}
+				case *ssa.Call:
+					if cn := core.MethodNameOf(&x.Call); core.CalleePkgPath(&x.Call) == "sort" && !strings.Contains(cn, "Sorted") && !strings.HasPrefix(cn, "Search") {
+						for _, a := range x.Call.Args {
+							if fromInput(a) {
+								bad = "a slice of an input element is sorted in place at " + p.Pos(in.Pos())
+							}
+						}
+					}
+				}
+			}
+		}
+		if bad != "" {
+			r.Violate("C08.5", name, p.FuncPos(f), bad+": the element is the role object shared through the cache / state store, so resolving one token changes what every other token using that role is granted (the decision depends on which tokens were resolved before)")
+		} else {
+			r.Hold("C08.5", name, p.FuncPos(f), "works on clones; inputs are only read")
+		}
+	}
+	r.Floor("C08.5", 3)
 }
